@@ -740,11 +740,13 @@ def check_shape(desc, ctx):
                 if not n0 == 0:
                     raise Violation(f"{name}: loading({z!r}) = {n0!r}, expected 0", tag="zero_loading")
         if kh is not None:
-            p0 = henry_abscissa(model, P)
-            for form in (float, lambda v: np.array([v])):
-                n0 = float(np.asarray(m.loading(form(p0)), dtype=float).ravel()[0])
-                if not abs(n0 / p0 - kh) <= 1e-6 * kh:
-                    raise Violation(f"{name}: loading({p0!r})/p = {n0 / p0!r}, Henry constant {kh!r}", tag="henry")
+            # "tends to": at the abscissa where the typed deviation is 1e-8 and everywhere further down (1e-4 and
+            # 1e-8 of it: a limit that is approached and then left again is not a limit)
+            for p0 in [henry_abscissa(model, P) * s for s in (1.0, 1e-4, 1e-8)]:
+                for form in (float, lambda v: np.array([v])):
+                    n0 = float(np.asarray(m.loading(form(p0)), dtype=float).ravel()[0])
+                    if not abs(n0 / p0 - kh) <= 1e-6 * kh:
+                        raise Violation(f"{name}: loading({p0!r})/p = {n0 / p0!r}, Henry constant {kh!r}", tag="henry")
             ctx.label("henry_checked")
     else:
         p = np.asarray(m.pressure(x.copy()), dtype=float)
@@ -758,10 +760,10 @@ def check_shape(desc, ctx):
         p00 = float(np.asarray(m.pressure(0.0), dtype=float))
         if not p00 == 0:
             raise Violation(f"{name}: pressure(0.0) = {p00!r}, expected 0", tag="zero_pressure")
-        n0 = henry_abscissa(model, P)
-        p0 = float(np.asarray(m.pressure(n0), dtype=float))
-        if not abs(n0 / p0 - kh) <= 1e-6 * kh:
-            raise Violation(f"{name}: n/pressure(n) at n = {n0!r} is {n0 / p0!r}, Henry constant {kh!r}", tag="henry")
+        for n0 in [henry_abscissa(model, P) * s for s in (1.0, 1e-4, 1e-8)]:
+            p0 = float(np.asarray(m.pressure(n0), dtype=float))
+            if not abs(n0 / p0 - kh) <= 1e-6 * kh:
+                raise Violation(f"{name}: n/pressure(n) at n = {n0!r} is {n0 / p0!r}, Henry constant {kh!r}", tag="henry")
         ctx.label("henry_checked")
         if model != "Virial":
             # the numerical loading (where the library returns): non-negative, below saturation, order preserving,
